@@ -581,6 +581,11 @@ func (vc *VC) enterLoop(fr *Frame, li *loopInfo) {
 					sort.Strings(rl)
 					cur := vc.heapGet(hst.heap, k)
 					for _, r := range rl {
+						// a struct object of which the loop only writes some fields keeps the others
+						if obj, ok := vc.fieldHavoc(k, tSelect(cur, mk(r, sortRef)), li.writeFields[k][r]); ok {
+							cur = tStore(cur, mk(r, sortRef), obj)
+							continue
+						}
 						cur = tStore(cur, mk(r, sortRef), vc.declFresh(k+"!loopobj", vc.compSort[k].Elem))
 					}
 					hst.heap.known[k] = vc.define(k+"!loop", cur)
@@ -676,8 +681,9 @@ func (vc *VC) loopWrites(fr *Frame, li *loopInfo, est *State) (map[string]bool, 
 	outLen, oblLen := len(vc.out), len(vc.obls)
 	errLen := len(vc.errs)
 	savedWritten, savedAll := vc.written, vc.writeAll
-	savedRefs := vc.writtenRefs
+	savedRefs, savedFields := vc.writtenRefs, vc.writtenFields
 	vc.writtenRefs = map[string]map[string]bool{}
+	vc.writtenFields = map[string]map[string]map[int]bool{}
 	savedCnt := map[string]int{}
 	for k, v := range vc.oblCnt {
 		savedCnt[k] = v
@@ -727,12 +733,15 @@ func (vc *VC) loopWrites(fr *Frame, li *loopInfo, est *State) (map[string]bool, 
 		vc.runBlock(fr, b)
 	}
 	written, all := vc.written, vc.writeAll
-	li.writeRefs = vc.writtenRefs
+	li.writeRefs, li.writeFields = vc.writtenRefs, vc.writtenFields
 	// restore
-	vc.writtenRefs = savedRefs
+	vc.writtenRefs, vc.writtenFields = savedRefs, savedFields
 	for comp, rs := range li.writeRefs {
 		for r := range rs {
 			vc.noteWriteRef(comp, r)
+			for f := range li.writeFields[comp][r] {
+				vc.noteWriteField(comp, r, f)
+			}
 		}
 	}
 	preText := strings.Join(vc.out[:outLen], "\n") + strings.Join(vc.constDecls, "\n")
@@ -754,6 +763,31 @@ func (vc *VC) loopWrites(fr *Frame, li *loopInfo, est *State) (map[string]bool, 
 	}
 	vc.written, vc.writeAll = savedWritten, savedAll || all
 	return written, all
+}
+
+// fieldHavoc builds the value of a struct object after a loop that writes only the given fields of it: those
+// fields become arbitrary, the others keep their value. ok is false when the loop (also) writes the object as a
+// whole or the component is not a struct component.
+func (vc *VC) fieldHavoc(comp string, obj Term, fields map[int]bool) (Term, bool) {
+	t := vc.compStruct[comp]
+	if t == nil || len(fields) == 0 || fields[-1] || !strings.HasPrefix(comp, "P:") {
+		return Term{}, false
+	}
+	st, ok := t.Underlying().(*types.Struct)
+	if !ok || "P:"+typeKey(t) != comp {
+		return Term{}, false
+	}
+	si := vc.structInfoOf(t, st)
+	obj = vc.define(comp+"!pre", obj)
+	var args []string
+	for i := range si.fields {
+		if fields[i] {
+			args = append(args, vc.declFresh(comp+"!loopfld", vc.sortOf(si.ftypes[i])).S)
+		} else {
+			args = append(args, "("+si.fields[i]+" "+obj.S+")")
+		}
+	}
+	return mk("("+si.ctor+" "+strings.Join(args, " ")+")", si.sort), true
 }
 
 func (vc *VC) checkBackEdge(fr *Frame, li *loopInfo, from *ssa.BasicBlock) {
